@@ -10,7 +10,6 @@ import (
 	v1 "k8s.io/api/core/v1"
 	metav1 "k8s.io/apimachinery/pkg/apis/meta/v1"
 	"k8s.io/apimachinery/pkg/runtime/schema"
-	utilruntime "k8s.io/apimachinery/pkg/util/runtime"
 	corelisters "k8s.io/client-go/listers/core/v1"
 	"k8s.io/client-go/tools/cache"
 	"k8s.io/client-go/tools/record"
@@ -87,7 +86,7 @@ func (w *syWorld) refresh() {
 		corelisters.NewPersistentVolumeClaimLister(pvcIdx), record.NewFakeRecorder(10000))
 }
 
-func podDigest(p *v1.Pod) string {
+func podDigest(p *v1.Pod, selAll bool) string {
 	owner := "n"
 	if ref := metav1.GetControllerOf(p); ref != nil {
 		if ref.UID == syUID {
@@ -115,7 +114,7 @@ func podDigest(p *v1.Pod) string {
 	case v1.PodUnknown:
 		ph = "U"
 	}
-	return fmt.Sprintf("%s:%s:%s:%s:%s:%s:%s:%s", p.Name, owner, b2s(p.Labels["app"] == rcSetName), ph, b2s(ready), b2s(p.DeletionTimestamp != nil),
+	return fmt.Sprintf("%s:%s:%s:%s:%s:%s:%s:%s", p.Name, owner, b2s(selAll || p.Labels["app"] == rcSetName), ph, b2s(ready), b2s(p.DeletionTimestamp != nil),
 		p.Labels[kubeapps.StatefulSetRevisionLabel], b2s(p.Labels[apps.StatefulSetPodNameLabel] == p.Name))
 }
 
@@ -129,7 +128,7 @@ func runWorld(line string) string {
 	if err != nil {
 		return "bad-case " + err.Error()
 	}
-	syPanicOnce.Do(func() { utilruntime.ReallyCrash = false })
+	watchSwallowedPanics()
 	w := buildSyWorld(c)
 	w.graceful = true
 	var parts []string
@@ -158,6 +157,9 @@ func runWorld(line string) string {
 				out = "err"
 			}
 		}()
+		if _, ok := swallowedPanic(); ok && out != "crash" {
+			out = "panic"
+		}
 		writes := 0
 		for _, e := range w.log {
 			if !strings.HasPrefix(e, "list:") && !strings.HasPrefix(e, "get:") {
@@ -166,7 +168,7 @@ func runWorld(line string) string {
 		}
 		var pd []string
 		for _, p := range w.apiPods() {
-			pd = append(pd, podDigest(p))
+			pd = append(pd, podDigest(p, c.selAll))
 		}
 		st := "-"
 		if s := w.apiSet(); s != nil {
